@@ -132,6 +132,8 @@ m("c18-level-inner-offbyone", ["C18"], "trie/slimtrie_level.go",
 # ---- C19
 m("c19-double-decode-again", ["C19", "C18"], "trie/slimtrie_query.go",
   "return bmtree.Decode(size, bm)", "_ = size\n\treturn bmtree.Decode(qr.to-qr.from, bm)")
+m("c19-step-text-wrong", ["C19"], "trie/slimtrie_str.go",
+  "\t\tstep := n.innerPrefixLen\n", "\t\tstep := n.innerPrefixLen &^ 7\n")
 # ---- C20
 m("c20-opt-written-through", ["C20"], "trie/slimtrie.go",
   "\tif o.Complete != nil && *o.Complete == true {\n\t\to.InnerPrefix = Bool(true)\n\t\to.LeafPrefix = Bool(true)", "\tif o.Complete != nil && *o.Complete == true {\n\t\tif o.InnerPrefix != nil {\n\t\t\t*o.InnerPrefix = true\n\t\t} else {\n\t\t\to.InnerPrefix = Bool(true)\n\t\t}\n\t\to.LeafPrefix = Bool(true)")
